@@ -76,7 +76,7 @@ def dense_spec(rng, nt=None, nc=None, ns=None, nsw=None, curated=None, whiten=No
     rng.shuffle(st)
     n_raw = ns + rng.randrange(6, 40)
     spec = dict(
-        n_channels=nc, n_channels_dat=nc, sample_rate=rng.pick([1000., 2000., 25000.]), dtype='int16', offset=0,
+        n_channels=nc, n_channels_dat=nc, sample_rate=rng.pick([1000., 2000., 25000., 2500., 12500., 24414.0625, 500., 30000.]), dtype='int16', offset=0,
         spike_samples=sorted(rng.randrange(0, n_raw) for _ in range(ns)), spike_templates=st,
         amplitudes=[(rng.randrange(0, 17) if amp_nonneg else rng.randrange(-8, 17)) / 4. for _ in range(ns)],
         channel_map=list(range(nc)),
